@@ -1,4 +1,4 @@
 From Coq Require Extraction ExtrOcamlBasic.
 From Centro Require Import Base.Sx Model.Lapjv Spec.Lapjv.
 Extraction Language OCaml.
-Extraction "extracted/c01.ml" entry_lapjv entry_track entry_cert entry_pm entry_wf entry_total entry_track_ok.
+Extraction "extracted/c01.ml" entry_lapjv entry_arr entry_track entry_cert entry_pm entry_wf entry_total entry_track_ok.
